@@ -145,6 +145,7 @@ def run(spec, out):
             chosen.append("dot-third-occurrence")
         if case.op == "roll":
             chosen.append("roll-shift-length")
+        chosen.append(rng.choice(["zero-kw", "zero-literal", "non-ascii-name"]))
         if case.family == "update" and rng.random() < 0.3:
             chosen.append("update-zero-size-syntax")
         if case.kwargs and rng.random() < 0.5:
@@ -295,6 +296,34 @@ def run(spec, out):
                 tensors[k_] = np.zeros((0,) + tuple(tensors[k_].shape[1:]), dtype=tensors[k_].dtype)
                 desc = base_desc + rng.choice([" (", " ]", " -> ->", ")("])
                 proof = "syntax"
+            elif edit == "zero-kw":
+                # axis lengths are positive: a keyword size of 0 (python or numpy integer) is rejected, whatever else determines the axis
+                ints = sorted(k_ for k_, v_ in kw.items() if isinstance(v_, int) and not isinstance(v_, bool))
+                if not ints:
+                    continue
+                kw[rng.choice(ints)] = rng.choice([0, np.int64(0), np.int32(0)])
+                proof = "rule:positive-sizes"
+            elif edit == "zero-literal":
+                # a literal 0 in place of a root-level named axis of an input (every dimension of the tensors is >= 1)
+                cands = [(i_, j_) for i_, e_ in enumerate(inputs) for j_, n_ in enumerate(e_) if isinstance(n_, Ax) and i_ < len(tensors)]
+                if not cands:
+                    continue
+                i_, j_ = rng.choice(cands)
+                inputs[i_][j_] = Num(0)
+                proof = "rule:positive-sizes"
+            elif edit == "non-ascii-name":
+                # axis names are ASCII identifiers: a name with a non-ASCII letter or digit inside, used consistently everywhere, is a syntax error
+                names_ = sorted({n_.name for e_ in inputs + (outputs or []) for n_ in walk(e_) if isinstance(n_, Ax)})
+                if not names_:
+                    continue
+                old_ = rng.choice(names_)
+                new_ = old_ + rng.choice(["\u00e9", "\u00b2", "\u00df", "\u0663", "\uff41", "\u0431"])
+                ren_ = {old_: new_}
+                inputs = [copy_expr(e_, ren_) for e_ in inputs]
+                outputs = None if outputs is None else [copy_expr(e_, ren_) for e_ in outputs]
+                if old_ in kw:
+                    kw[new_] = kw.pop(old_)
+                proof = "syntax:axis-name"
             elif edit == "roll-shift-length":
                 # one shift per rolled dimension (or a single one for all): a sequence of another length is rejected
                 from ..gen.expr import elementary_dims
